@@ -294,6 +294,7 @@ struct Gen<'a> {
     paths: Vec<String>,
     slots: usize,
     line: u32,
+    col: u32,
     bench_mode: bool,
     names_with_spaces: bool,
 }
@@ -358,9 +359,15 @@ impl Gen<'_> {
     }
 
     fn loc(&mut self) -> (String, u32, u32) {
+        let before = self.line;
         self.line += self.rng.below(5) as u32 + if self.rng.chance(1, 6) { 0 } else { 1 };
         let file = ["src/main.rs", "src/main.rs", "src/b.rs", "benches/x/mod.rs"][self.rng.below(4) as usize];
-        (file.to_string(), self.line, 1 + self.rng.below(40) as u32)
+        // Two items never share file, line and column (they cannot in a real
+        // program; between such items only their addresses would decide the
+        // order): on the same line the column moves on.
+        let col = if self.line == before { self.col + 1 + self.rng.below(10) as u32 } else { 1 + self.rng.below(40) as u32 };
+        self.col = col;
+        (file.to_string(), self.line, col)
     }
 
     fn display(&mut self, raw: &str) -> String {
@@ -595,7 +602,7 @@ pub fn gen(rng: &mut Rng, n: usize) -> Vec<String> {
     while out.len() < n {
         let act = ["test", "test", "list", "terse", "terse", "bench", "listapi", "testapi"][rng.below(8) as usize];
         let bench_mode = act == "bench";
-        let mut g = Gen { rng, items: vec![], paths: vec![], slots: 0, line: 1, bench_mode, names_with_spaces: !bench_mode && act != "terse" };
+        let mut g = Gen { rng, items: vec![], paths: vec![], slots: 0, line: 1, col: 0, bench_mode, names_with_spaces: !bench_mode && act != "terse" };
         let size = g.rng.below(3);
         g.module("bc", if size == 0 { 2 } else { 0 });
         let items = std::mem::take(&mut g.items);
